@@ -177,6 +177,47 @@ def r10_1(ctx):
     ctx.need(n >= 40, f"only {n} templates sort-checked")
 
 
+def bool_node_classes_declare_bool(ctx):
+    """nodes whose template yields an IL bool are typed BOOL, nodes that yield a bitvector are not (valuation of the constructors)"""
+    idx = get_index(ctx.env)
+    cmp_t = members_by_value(idx, "CompareOpType")
+    bool_t = members_by_value(idx, "BooleanOpType")
+    ar_t = members_by_value(idx, "ArithmeticType")
+    bit_t = members_by_value(idx, "BitOperationType")
+    a = lambda: mk_pure("a", mk_vt("ta", True, 32))
+    b = lambda: mk_pure("b", mk_vt("tb", True, 32))
+    specs = [
+        ("CompareOp", lambda: ["n", a(), b(), cmp_t["<"]], True),
+        ("BooleanOp", lambda: ["n", a(), b(), bool_t["&&"]], True),
+        ("Bool", lambda: ["n", True], True),
+        ("ArithmeticOp", lambda: ["n", a(), b(), ar_t["+"]], False),
+        ("BitOp", lambda: ["n", a(), b(), bit_t["&"]], False),
+    ]
+    for cls, mk, exp in specs:
+        fi = idx.resolve_method(cls, "__init__")
+        ctx.need(fi is not None, f"{cls}.__init__ not found")
+        box = {}
+
+        def once(i, cls=cls, mk=mk):
+            o = AObj(cls, {}, label="node")
+            box["o"] = o
+            i.call_function(fi, mk(), self_obj=o)
+            return o.fields.get("value_type")
+        try:
+            outs = Interp(idx).explore(once)
+        except Exception as e:  # constructor shape changed: decide from what can be seen
+            outs = []
+            ctx.need(False, f"{cls}.__init__ could not be evaluated: {type(e).__name__}: {e}")
+        got = set()
+        for o in outs:
+            vt = o.value if o.kind == "return" else None
+            if isinstance(vt, AObj) and "group" in vt.fields:
+                got.add("BOOL" in vt.fields["group"].members)
+            else:
+                got.add(None)
+        ctx.check(f"{cls} is typed {'BOOL' if exp else 'as a bitvector'}", got == {exp}, str(exp), str(sorted(map(str, got))), fn_where(idx, fi), nontrivial=exp)
+
+
 def truth_test_width_independence(ctx):
     """every site that turns a scalar into a truth value tests the WHOLE value: NON_ZERO(<read>) for every width and signedness
     (?: condition, if condition, for condition, both operands of && / ||, operand of !)"""
@@ -238,11 +279,7 @@ def r10_2(ctx):
     from .c03 import r03_2
 
     r03_2(ctx)  # init_a_cast: a bool source is converted by ITE(src, 1, 0), decided by the BOOL flags of source and target
-    # classes whose template yields a bool declare BOOL, all others do not create BOOL types
-    for cls, exp in (("CompareOp", True), ("BooleanOp", True), ("Bool", True), ("ArithmeticOp", False), ("BitOp", False), ("MemLoad", False), ("Sizeof", False)):
-        fi = idx.func(f"{cls}.__init__")
-        makes_bool = any(isinstance(n, ast.Call) and call_name(n) == "ValueType" and "VTGroup.BOOL" in U(n) for n in ast.walk(fi.node))
-        ctx.check(f"{cls} declares BOOL", makes_bool == exp, str(exp), str(makes_bool), fn_where(idx, fi), nontrivial=exp)
+    bool_node_classes_declare_bool(ctx)
     fb = idx.func("Bool.il_read")
     outs = Interp(idx).explore(lambda i: i.call_function(fb, [], self_obj=AObj("Bool", {"value": True}, label="self")))
     ctx.check("Bool literal emits an IL bool", [o.value for o in outs] == ["IL_TRUE"], "IL_TRUE", str([outcome_text(o) for o in outs]), fn_where(idx, fb))
